@@ -145,8 +145,8 @@ for sh_i, items in shards.items():
     tabs = {}
     for i, r, k, tr in items:
         txt += T.coq_run("t%d" % i, tr, tabs)
-        txt += ("Definition V%d := Eval vm_compute in match t%d_tr with Some tr => valid_trace unit unit t%d_gg t%d_cap tr | None => false end.\nPrint V%d.\n"
-                % (i, i, i, i, i))
+        txt += ("Definition V%d := Eval vm_compute in match t%d_tr with Some tr => valid_trace_nfast t%d_top t%d_tabs t%d_assign t%d_cap tr | None => false end.\nPrint V%d.\n"
+                % (i, i, i, i, i, i, i))
     files["traces%d" % sh_i] = txt
 results = ck.coq_cases_parallel(files, timeout=3000, jobs=nshard) if files else {}
 nvalid, events, shapes, inner_levels = 0, 0, set(), 0
